@@ -63,7 +63,7 @@ fn main() {
             cols.push(apply_nulls(ints, &mask));
         }
         // physical realisation: 1..3 batches, optionally flushed into partitions
-        let db = Arc::new(LocustDB::new(&base_options()));
+        let db = Arc::new(LocustDB::new(&locustdb::Options { partition_combine_factor: 1_000_000_000, ..base_options() }));
         let nb = 1 + rng.below(3) as usize;
         let mut start = 0;
         let mut real = String::new();
